@@ -90,6 +90,30 @@ pub fn check_project_dir(case: &mut Case, label: &str, root: &std::path::Path, e
     }
 }
 
+fn normalise_bad_float_verb(s: &str) -> String {
+    let mut out = String::new();
+    let mut rest = s;
+    loop {
+        let Some(i) = rest.find("%!d(float") else {
+            out.push_str(rest);
+            return out;
+        };
+        out.push_str(&rest[..i]);
+        let tail = &rest[i..];
+        let (Some(eq), Some(close)) = (tail.find('='), tail.find(')')) else {
+            out.push_str(tail);
+            return out;
+        };
+        if eq < close {
+            out.push_str(&tail[eq + 1..close]);
+            rest = &tail[close + 1..];
+        } else {
+            out.push_str(&tail[..1]);
+            rest = &tail[1..];
+        }
+    }
+}
+
 fn run(ctx: &mut Ctx) {
     let tier = ctx.tier;
     let seed = ctx.seed;
@@ -106,6 +130,9 @@ fn run(ctx: &mut Ctx) {
         }
         let name = d.file_name().unwrap().to_string_lossy().to_string();
         let Ok(expected) = std::fs::read_to_string(d.join("main.gom.out")) else { continue };
+        // outputs recorded before `fix: float32_to_string / float64_to_string print the number` contain Go's
+        // bad-verb rendering `%!d(float32=3.5)`; the value inside is what %v prints
+        let expected = normalise_bad_float_verb(&expected);
         let src = std::fs::read_to_string(d.join("main.gom")).unwrap_or_default();
         ctx.case(&format!("corpus/{}", name), |c| {
             c.count("programs", 1);
